@@ -321,11 +321,11 @@ func checkPT(c ptCase) *vk.Failure {
 }
 
 func TestTridiag(t *testing.T) {
-	vk.Run(t, "gt", vk.Opts{Quick: 400, Thorough: 20000}, func(t *rapid.T) gtCase {
+	vk.Run(t, "gt", vk.Opts{Quick: 400, Thorough: 12000}, func(t *rapid.T) gtCase {
 		return gtCase{N: drawDim(t, "n", 60, 200), Nrhs: drawNrhs(t), PadB: vk.Pad(t, "padB"),
 			Class: rapid.IntRange(0, 3).Draw(t, "class"), Trans: rapid.Bool().Draw(t, "trans"), Seed: vk.SeedGen(t, "seed")}
 	}, finish(checkGT))
-	vk.Run(t, "pt", vk.Opts{Quick: 400, Thorough: 20000}, func(t *rapid.T) ptCase {
+	vk.Run(t, "pt", vk.Opts{Quick: 400, Thorough: 12000}, func(t *rapid.T) ptCase {
 		return ptCase{N: drawDim(t, "n", 60, 200), Nrhs: drawNrhs(t), PadB: vk.Pad(t, "padB"),
 			NotPD: vk.NewSplitMix(rapid.Uint64().Draw(t, "notpd")).Intn(5) == 0,
 			Ints:  rapid.Bool().Draw(t, "ints"), Seed: vk.SeedGen(t, "seed")}
